@@ -123,6 +123,7 @@ def run(prog, run):
     r6(prog, run)
     r7(prog, run, dec)
     r8(prog, run, dec)
+    r9(prog, run, enc)
 
 
 def r1(prog, run, enc, dec):
@@ -488,6 +489,48 @@ STRING_COMPARES = ('qstrncmp', 'qstrcmp', 'strncmp', 'strcmp', 'qstrnicmp', 'qst
 PARTIAL = ('startsWith', 'endsWith', 'contains', 'indexOf', 'left', 'right', 'mid', 'chopped', 'first', 'last', 'truncate', 'chop')
 
 
+def _walk_resolved(f, nid, depth=0, seen=None):
+    """walk an expression, descending into the initialisers of single-assignment locals"""
+    seen = set() if seen is None else seen
+    for j in f.walk(nid):
+        if j in seen:
+            continue
+        seen.add(j)
+        yield j
+        n = f.nodes[j]
+        if n['k'] == 'var' and n.get('vk') == 'local' and depth < 4:
+            d = f.single_def(n['decl'])
+            if d is not None:
+                yield from _walk_resolved(f, d, depth + 1, seen)
+
+
+def _value_chain(f, nid, depth=0):
+    """the operations a value went through: the expression itself, the objects methods were called on, both arms of ?:, the initialiser of a
+    single-assignment local - but not the arguments of the function that produced it"""
+    if depth > 8 or nid is None:
+        return
+    nid = f.skip(nid)
+    n = f.nodes[nid]
+    yield nid
+    if n['k'] == 'un' and n.get('op') == '!':
+        yield from _value_chain(f, n['e'], depth + 1)
+    elif n['k'] == 'call' and n.get('obj') is not None:
+        yield from _value_chain(f, n['obj'], depth + 1)
+    elif n['k'] == 'call' and n.get('op') in ('==', '!=') and n.get('opargs'):
+        for a in n['opargs']:
+            yield from _value_chain(f, a, depth + 1)
+    elif n['k'] == 'cond':
+        yield from _value_chain(f, n['a'], depth + 1)
+        yield from _value_chain(f, n['b'], depth + 1)
+    elif n['k'] == 'var' and n.get('vk') == 'local':
+        d = f.single_def(n['decl'])
+        if d is not None:
+            yield from _value_chain(f, d, depth + 1)
+    elif n['k'] in ('bin',) and n.get('op') in ('==', '!='):
+        yield from _value_chain(f, n['l'], depth + 1)
+        yield from _value_chain(f, n['r'], depth + 1)
+
+
 def r8(prog, run, dec):
     rid = run.rule('C14.R8', 'the received MESSAGE-INTEGRITY and FINGERPRINT are compared with the computed value in full: a byte-array / integer (in)equality or '
                              'a fixed-length memcmp, never a C-string comparison (stops at the first NUL) or a prefix/substring test', floor=2)
@@ -505,14 +548,22 @@ def r8(prog, run, dec):
         run.instance(rid)
         problems = []
         cmp_nodes = [j for j in dec.walk(i) if dec.binop(j) and dec.binop(j)[0] in ('==', '!=') and ('generateHmacSha1' in dec.fmt(j) or 'generateCrc32' in dec.fmt(j))]
-        for j in dec.walk(i):
-            m = dec.nodes[j]
-            if m['k'] == 'call':
-                nm = (dec.sym(m) or {}).get('name', '')
-                if nm in STRING_COMPARES:
-                    problems.append('%s() treats the MAC as a C string and stops at its first zero byte: only a prefix of the %s is verified' % (nm, which))
-                elif nm in PARTIAL and which == 'MESSAGE-INTEGRITY':
-                    problems.append('%s() compares only part of the %s' % (nm, which))
+        # only operations applied to the two MAC values themselves count (the input of the HMAC may of course be a prefix of the packet)
+        roots = []
+        for cn_ in (cmp_nodes or [i]):
+            bo_ = dec.binop(cn_)
+            roots += list(bo_[1:]) if bo_ else [cn_]
+        if not cmp_nodes:
+            roots = [i]
+        for r0 in roots:
+            for j in _value_chain(dec, r0):
+                m = dec.nodes[j]
+                if m['k'] == 'call':
+                    nm = (dec.sym(m) or {}).get('name', '')
+                    if nm in STRING_COMPARES:
+                        problems.append('%s() treats the MAC as a C string and stops at its first zero byte: only a prefix of the %s is verified' % (nm, which))
+                    elif nm in PARTIAL and which == 'MESSAGE-INTEGRITY':
+                        problems.append('%s() compares only part of the %s' % (nm, which))
         if not problems and not cmp_nodes:
             problems.append('the %s decision is not an (in)equality of the received and the computed value (%s)' % (which, dec.fmt(i, inline=False)[:60]))
         if not problems and which == 'MESSAGE-INTEGRITY':
@@ -528,3 +579,54 @@ def r8(prog, run, dec):
             run.ok(rid, dec.loc(i), '%s compared in full (%s)' % (which, dec.fmt(i, inline=False)[:60]))
     if found < 2:
         raise AnalysisBroken('C14.R8: integrity/fingerprint comparisons not found in decode (found %d)' % found)
+
+
+def r9(prog, run, enc):
+    rid = run.rule('C14.R9', 'opaque byte attributes are written as the bytes they hold (no text conversion on the way), and the address family written is the '
+                             'protocol() of the address (toIPv4Address(&ok) also succeeds for IPv4-mapped IPv6 addresses)', floor=2)
+    # (a) byte-array members of the message must not pass through QString on their way into the packet
+    run.instance(rid)
+    bad = None
+    fns = [enc] + [g for g in prog.fns.values() if g.name in ('encodeString', 'encodeAddress') and 'QXmppStun.cpp' in g.file]
+    for i, n in enc.calls():
+        cn = enc.cname(n)
+        if cn in ('QString::fromUtf8', 'QString::fromLatin1', 'QString::fromLocal8Bit') or (n['k'] == 'construct' and n.get('cls') == 'QString'):
+            for a in n.get('args', []):
+                for j in enc.walk(a):
+                    m = enc.nodes[j]
+                    if m['k'] == 'mem' and 'QByteArray' in (m.get('t') or '') and m['f'].startswith('QXmppStunMessage::'):
+                        bad = (i, m['f'].split('::')[-1], cn)
+    if bad:
+        run.violation(rid, 'encode#bytes-through-text#%s' % bad[1], enc.loc(bad[0]),
+                      'the opaque byte attribute %s is converted with %s before it is written: bytes that are not valid UTF-8 (or follow a NUL) are altered, the decoder '
+                      'reads them back raw, so the message does not decode to the value that was set' % (bad[1], bad[2]))
+    else:
+        run.ok(rid, enc.loc(), 'byte-array attributes are written raw')
+    # (b) address family
+    ea = [g for g in prog.fns.values() if g.name == 'encodeAddress' and 'QXmppStun.cpp' in g.file and not g.is_lambda]
+    if not ea:
+        raise AnalysisBroken('C14.R9: encodeAddress not found')
+    ea = ea[0]
+    run.instance(rid)
+    fam_conds = []
+    for b in ea.blocks.values():
+        t = b.get('term')
+        if t and t.get('k') == 'if' and 'cond' in t:
+            fam_conds.append(t['cond'])
+    uses_protocol = any('QHostAddress::protocol()' in ea.fmt(c, inline=True) for c in fam_conds)
+    out_param = [i for i, n in ea.calls('QHostAddress::toIPv4Address') if n.get('args') and ea.nodes[n['args'][0]]['k'] != 'defarg']
+    flag_cond = False
+    for i in out_param:
+        a = ea.nodes[ea.skip(ea.nodes[i]['args'][0])]
+        tgt = a.get('e') if a['k'] == 'un' else None
+        decl = ea.nodes[ea.skip(tgt)].get('decl') if tgt is not None else None
+        if decl is not None and any(any(ea.nodes[j].get('decl') == decl for j in ea.walk(c)) for c in fam_conds):
+            flag_cond = True
+    if flag_cond:
+        run.violation(rid, 'encodeAddress#family-from-conversion', ea.loc(out_param[0]),
+                      'the address family is chosen by the ok flag of toIPv4Address(), which is also true for IPv4-mapped IPv6 addresses and "::": such addresses are '
+                      'written as 4-byte IPv4 attributes and decode to a different address')
+    elif uses_protocol:
+        run.ok(rid, ea.loc(), 'family decided by QHostAddress::protocol()')
+    else:
+        raise AnalysisBroken('C14.R9: the address family decision of encodeAddress has a form the checker does not know')
